@@ -50,26 +50,50 @@ extern "C" size_t strlen(const char* s) { size_t n = 0; while (s[n] != 0) n++; r
 
 // ---- static enum items: static constructors are not executed by the solver build, so the
 // integer value of the items the kernels use is written by hand (natively: same values again).
-static void g_eloc(const ELoc& e, int v) { const_cast<ELoc&>(e)._value = v; }
+// every field (and the padding) is written so that the items can be copied by the compiled code.
+template<class E> static void g_enum(const E& e, int v)
+{
+  E& x = const_cast<E&>(e);
+  x._value = v;
+#ifdef VF_SOLVER
+  x._key = std::string_view();
+  *(int*)((char*)&x._value + 4) = 0;
+  x._descr = std::string_view();
+#endif
+}
 static void ghost_enums()
 {
-  g_eloc(ELoc::UNKNOWN, -1);
-  g_eloc(ELoc::X, 0);
-  g_eloc(ELoc::Z, 1);
-  g_eloc(ELoc::V, 2);
-  g_eloc(ELoc::F, 3);
-  g_eloc(ELoc::SEL, 10);
-  g_eloc(ELoc::NOSTAT, 20);
-  g_eloc(ELoc::SIMU, 22);
+  g_enum(ELoc::UNKNOWN, -1);
+  g_enum(ELoc::X, 0);
+  g_enum(ELoc::Z, 1);
+  g_enum(ELoc::V, 2);
+  g_enum(ELoc::F, 3);
+  g_enum(ELoc::SEL, 10);
+  g_enum(ELoc::NOSTAT, 20);
+  g_enum(ELoc::SIMU, 22);
 }
+// the item map is not constructed either: the two keys the kernels reach ("Z", "UNKNOWN" default arguments)
+const ELoc& ELoc::fromKey(const std::string_view key) { return (key.size() == 1) ? ELoc::Z : ELoc::UNKNOWN; }
 
-// ---- ghost primitives.  Written without data-dependent branches (conditional expressions over
-// every identifier) so that the symbolic executor does not fork inside the model.
-#define G_IS(w, i, t, r) ((g_live[w][i] != 0) ? ((g_loc[w][i] == (t)) ? (g_rank[w][i] == (r)) : false) : false)
+// ---- ghost primitives.  Written without data-dependent branches (values are loaded first, then
+// combined with & | and conditional expressions over every identifier) so that the symbolic
+// executor does not fork inside the model.
+static inline bool G_AND(bool a, bool b) { return a ? b : false; }
+static inline bool G_OR(bool a, bool b) { return a ? true : b; }
+static inline bool G_AND3(bool a, bool b, bool c) { return a ? (b ? c : false) : false; }
+static inline bool g_is(int w, int i, int t, int r)
+{
+  int l = g_live[w][i], lo = g_loc[w][i], rk = g_rank[w][i];
+  return G_AND3(l == 1, lo == t, rk == r);
+}
 static bool g_valid(int w, int iuid)
 {
   bool ok = false;
-  for (int i = 0; i < G_MAXID; i++) ok = (i == iuid) ? (g_live[w][i] != 0) : ok;
+  for (int i = 0; i < G_MAXID; i++)
+  {
+    int l = g_live[w][i];
+    ok = G_OR(ok, G_AND(i == iuid, l == 1));
+  }
   return ok;
 }
 // the column holding (type, rank) loses its role; other ranks stay (PtrGeos::setLocatorByIndex overwrites)
@@ -77,9 +101,10 @@ static void g_unrole(int w, int type, int rank)
 {
   for (int i = 0; i < G_MAXID; i++)
   {
-    bool hit = G_IS(w, i, type, rank);
-    g_loc[w][i] = hit ? G_NONE : g_loc[w][i];
-    g_rank[w][i] = hit ? 0 : g_rank[w][i];
+    bool hit = g_is(w, i, type, rank);
+    int lo = g_loc[w][i], rk = g_rank[w][i];
+    g_loc[w][i] = hit ? G_NONE : lo;
+    g_rank[w][i] = hit ? 0 : rk;
   }
 }
 // column iuid gives its role up and the higher ranks of that type move down (PtrGeos::erase)
@@ -89,15 +114,17 @@ static void g_erase(int w, int iuid)
   for (int i = 0; i < G_MAXID; i++)
   {
     bool me = (i == iuid);
-    t = me ? g_loc[w][i] : t;
-    r = me ? g_rank[w][i] : r;
-    g_loc[w][i] = me ? G_NONE : g_loc[w][i];
-    g_rank[w][i] = me ? 0 : g_rank[w][i];
+    int lo = g_loc[w][i], rk = g_rank[w][i];
+    t = me ? lo : t;
+    r = me ? rk : r;
+    g_loc[w][i] = me ? G_NONE : lo;
+    g_rank[w][i] = me ? 0 : rk;
   }
   for (int i = 0; i < G_MAXID; i++)
   {
-    bool up = (t >= 0) ? ((g_live[w][i] != 0) ? ((g_loc[w][i] == t) ? (g_rank[w][i] > r) : false) : false) : false;
-    g_rank[w][i] = up ? g_rank[w][i] - 1 : g_rank[w][i];
+    int l = g_live[w][i], lo = g_loc[w][i], rk = g_rank[w][i];
+    bool up = G_AND(G_AND(t >= 0, l == 1), G_AND(lo == t, rk > r));
+    g_rank[w][i] = up ? rk - 1 : rk;
   }
 }
 static int g_count(int w, int type)
@@ -105,15 +132,16 @@ static int g_count(int w, int type)
   int n = 0; // PtrGeos::getLocatorNumber: highest rank in use + 1
   for (int i = 0; i < G_MAXID; i++)
   {
-    bool in = (type >= 0) ? ((g_live[w][i] != 0) ? ((g_loc[w][i] == type) ? (g_rank[w][i] + 1 > n) : false) : false) : false;
-    n = in ? g_rank[w][i] + 1 : n;
+    int l = g_live[w][i], lo = g_loc[w][i], rk = g_rank[w][i];
+    bool in = G_AND(G_AND(type >= 0, l == 1), G_AND(lo == type, rk + 1 > n));
+    n = in ? rk + 1 : n;
   }
   return n;
 }
 static int g_find(int w, int type, int rank)
 {
   int r = -1;
-  for (int i = 0; i < G_MAXID; i++) r = G_IS(w, i, type, rank) ? i : r;
+  for (int i = 0; i < G_MAXID; i++) r = g_is(w, i, type, rank) ? i : r;
   return r;
 }
 // setLocatorByUID on a valid identifier
@@ -121,26 +149,29 @@ static void g_setrole(int w, int iuid, int type, int rank)
 {
   bool ok = g_valid(w, iuid);
   int id = ok ? iuid : -1; // -1 matches no identifier: nothing happens
-  int rk = (rank < 0) ? g_count(w, type) : rank;
+  int cnt = g_count(w, type);
+  int rk = (rank < 0) ? cnt : rank;
   g_erase(w, id);
-  g_unrole(w, (ok && type >= 0) ? type : -2, rk);
+  g_unrole(w, G_AND(ok, type >= 0) ? type : -2, rk);
   for (int i = 0; i < G_MAXID; i++)
   {
-    bool me = (i == id) ? (type >= 0) : false;
-    g_loc[w][i] = me ? type : g_loc[w][i];
-    g_rank[w][i] = me ? rk : g_rank[w][i];
+    bool me = G_AND(i == id, type >= 0);
+    int lo = g_loc[w][i], r0 = g_rank[w][i];
+    g_loc[w][i] = me ? type : lo;
+    g_rank[w][i] = me ? rk : r0;
   }
 }
 static void g_clear(int w, int type)
 {
   for (int i = 0; i < G_MAXID; i++)
   {
-    bool hit = (g_live[w][i] != 0) ? (g_loc[w][i] == type) : false;
-    g_loc[w][i] = hit ? G_NONE : g_loc[w][i];
-    g_rank[w][i] = hit ? 0 : g_rank[w][i];
+    int l = g_live[w][i], lo = g_loc[w][i], rk = g_rank[w][i];
+    bool hit = G_AND(l == 1, lo == type);
+    g_loc[w][i] = hit ? G_NONE : lo;
+    g_rank[w][i] = hit ? 0 : rk;
   }
 }
-// nadd is a concrete number in every kernel (it sizes the calculators' own vectors)
+// nadd and type are concrete in every kernel (nadd sizes the calculators' own vectors)
 static int g_add(int w, int nadd, int type, int rank)
 {
   if (nadd <= 0) return -1;
@@ -148,16 +179,18 @@ static int g_add(int w, int nadd, int type, int rank)
   int first = g_next[w];
   for (int i = 0; i < G_MAXID; i++)
   {
-    bool in = (i >= first) ? (i < first + nadd) : false;
-    g_live[w][i] = in ? 1 : g_live[w][i];
-    g_loc[w][i] = in ? G_NONE : g_loc[w][i];
-    g_rank[w][i] = in ? 0 : g_rank[w][i];
-    g_touched[w][i] = in ? 0 : g_touched[w][i];
+    bool in = G_AND(i >= first, i < first + nadd);
+    int l = g_live[w][i], lo = g_loc[w][i], rk = g_rank[w][i], tc = g_touched[w][i];
+    g_live[w][i] = in ? 1 : l;
+    g_loc[w][i] = in ? G_NONE : lo;
+    g_rank[w][i] = in ? 0 : rk;
+    g_touched[w][i] = in ? 0 : tc;
   }
   g_next[w] = first + nadd;
   if (type >= 0)
   {
-    int rk = (rank < 0) ? g_count(w, type) : rank;
+    int cnt = g_count(w, type);
+    int rk = (rank < 0) ? cnt : rank;
     for (int k = 0; k < nadd; k++) g_setrole(w, first + k, type, rk + k);
   }
   return first;
@@ -165,14 +198,23 @@ static int g_add(int w, int nadd, int type, int rank)
 static void g_del(int w, int iuid)
 {
   bool ok = g_valid(w, iuid);
-  g_baddel[w] = ok ? g_baddel[w] : 1;
+  int bd = g_baddel[w];
+  g_baddel[w] = ok ? bd : 1;
   int id = ok ? iuid : -1;
   g_erase(w, id);
-  for (int i = 0; i < G_MAXID; i++) g_live[w][i] = (i == id) ? 0 : g_live[w][i];
+  for (int i = 0; i < G_MAXID; i++)
+  {
+    int l = g_live[w][i];
+    g_live[w][i] = (i == id) ? 0 : l;
+  }
 }
 static void g_touch(int w, int iuid)
 {
-  for (int i = 0; i < G_MAXID; i++) g_touched[w][i] = (i == iuid) ? ((g_live[w][i] != 0) ? 1 : g_touched[w][i]) : g_touched[w][i];
+  for (int i = 0; i < G_MAXID; i++)
+  {
+    int l = g_live[w][i], tc = g_touched[w][i];
+    g_touched[w][i] = G_AND(i == iuid, l == 1) ? 1 : tc;
+  }
 }
 static void ghost_snapshot()
 {
@@ -192,7 +234,11 @@ static void ghost_snapshot()
 static bool ghost_same_ids(int w)
 {
   bool ok = (g_baddel[w] == 0);
-  for (int i = 0; i < G_MAXID; i++) ok = ((g_live[w][i] != 0) == (p_live[w][i] != 0)) ? ok : false;
+  for (int i = 0; i < G_MAXID; i++)
+  {
+    int l = g_live[w][i], pl = p_live[w][i];
+    ok = G_AND(ok, (l == 1) == (pl == 1));
+  }
   return ok;
 }
 static bool ghost_same_roles(int w)
@@ -200,9 +246,9 @@ static bool ghost_same_roles(int w)
   bool ok = true;
   for (int i = 0; i < G_MAXID; i++)
   {
-    bool both = (p_live[w][i] != 0) ? (g_live[w][i] != 0) : false;
-    bool diff = (g_loc[w][i] != p_loc[w][i]) ? true : (g_rank[w][i] != p_rank[w][i]);
-    ok = (both ? diff : false) ? false : ok;
+    int l = g_live[w][i], pl = p_live[w][i], lo = g_loc[w][i], plo = p_loc[w][i], rk = g_rank[w][i], prk = p_rank[w][i];
+    bool bad = G_AND3(pl == 1, l == 1, G_OR(lo != plo, rk != prk));
+    ok = bad ? false : ok;
   }
   return ok;
 }
@@ -211,8 +257,9 @@ static bool ghost_untouched(int w)
   bool ok = true;
   for (int i = 0; i < G_MAXID; i++)
   {
-    bool both = (p_live[w][i] != 0) ? (g_live[w][i] != 0) : false;
-    ok = (both ? (g_touched[w][i] != 0) : false) ? false : ok;
+    int l = g_live[w][i], pl = p_live[w][i], tc = g_touched[w][i];
+    bool bad = G_AND3(pl == 1, l == 1, tc == 1);
+    ok = bad ? false : ok;
   }
   return ok;
 }
@@ -231,10 +278,11 @@ void Db::deleteColumnsByLocator(const ELoc& locatorType)
   if (t < 0) return;
   for (int i = 0; i < G_MAXID; i++)
   {
-    bool hit = (g_live[w][i] != 0) ? (g_loc[w][i] == t) : false;
-    g_loc[w][i] = hit ? G_NONE : g_loc[w][i];
-    g_rank[w][i] = hit ? 0 : g_rank[w][i];
-    g_live[w][i] = hit ? 0 : g_live[w][i];
+    int l = g_live[w][i], lo = g_loc[w][i], rk = g_rank[w][i];
+    bool hit = G_AND(l == 1, lo == t);
+    g_loc[w][i] = hit ? G_NONE : lo;
+    g_rank[w][i] = hit ? 0 : rk;
+    g_live[w][i] = hit ? 0 : l;
   }
 }
 int Db::getLocNumber(const ELoc& loctype) const { return g_count(gw(this), loctype.getValue()); }
@@ -275,7 +323,11 @@ VectorString Db::getNamesByLocator(const ELoc& locatorType) const
   int n = g_count(w, locatorType.getValue());
   vf_assume(n <= G_MAXNAMES);
   g_names_n[w] = n;
-  for (int r = 0; r < G_MAXNAMES; r++) g_names_id[w][r] = (r < n) ? g_find(w, locatorType.getValue(), r) : -1;
+  for (int r = 0; r < G_MAXNAMES; r++)
+  {
+    int id = g_find(w, locatorType.getValue(), r);
+    g_names_id[w][r] = (r < n) ? id : -1;
+  }
   return VectorString(G_NDIM_NAMES);
 }
 void Db::setLocators(const VectorString& names, const ELoc& locatorType, int locatorIndex, bool cleanSameLocator)
@@ -285,7 +337,36 @@ void Db::setLocators(const VectorString& names, const ELoc& locatorType, int loc
   if (cleanSameLocator) g_clear(w, t);
   if (locatorIndex < 0) locatorIndex = g_count(w, t);
   for (int r = 0; r < G_MAXNAMES; r++)
-    g_setrole(w, (r < g_names_n[w]) ? g_names_id[w][r] : -1, t, locatorIndex + r);
+  {
+    int id = g_names_id[w][r];
+    g_setrole(w, (r < g_names_n[w]) ? id : -1, t, locatorIndex + r);
+  }
+}
+
+// ---- raw-storage objects: natively they get the vptr of their class from the library (keeps the
+// sanitizer's vptr check quiet); the solver build never looks at it.
+#ifdef VF_NATIVE
+#define G_NATIVE_VPTR(obj, sym) do { extern char sym[]; *(void**)(obj) = (void*)(sym + 16); } while (0)
+#else
+#define G_NATIVE_VPTR(obj, sym) do { } while (0)
+#endif
+
+// ---- NamingConvention objects created by the real code (NamingConvention::create("Migrate") in
+// ACalcDbToDb::_expandInformation): raw object with the real vptr, no string is built
+NamingConvention::~NamingConvention() {}
+AStringable::~AStringable() {}
+extern "C" char vt_NamingConvention[] asm("_ZTV16NamingConvention");
+NamingConvention* NamingConvention::create(const String& prefix, bool flag_varname, bool flag_qualifier,
+                                           bool flag_locator, const ELoc& locatorOutType, const String& delim,
+                                           bool cleanSameLocator)
+{
+  char* p = (char*)operator new(sizeof(NamingConvention));
+  for (size_t i = 0; i < sizeof(NamingConvention) / 8; i++) ((long*)p)[i] = 0;
+  *(void**)p = (void*)(vt_NamingConvention + 16);
+  NamingConvention* nc = (NamingConvention*)p;
+  new (&nc->_prefix) String();
+  new (&nc->_delim) String();
+  return nc;
 }
 
 // ---- ghost data bases: raw storage + the vptr of a harness class whose virtuals answer from the ghost
